@@ -104,7 +104,25 @@ def evaluate(case):
                     return outcome(rejected=True)
                 tmp = tmp or tempfile.mkdtemp(prefix='vp_c06_')
                 path = os.path.join(tmp, f'd{len(os.listdir(tmp))}.parq')
-                lib(B + ['to_parquet'], ddf.to_parquet, path)
+                target = path
+                if 'rewrite' in step and 'pack' not in prov:
+                    # a history: another dataset (same rows in reverse, same partition sizes, hence the same number of
+                    # files) was written to this very path, read and queried in this process, then removed
+                    lens = [int(v) for v in ddf.map_partitions(len).compute()]
+                    prior = dasktools.ddf_from_sizes(ref.iloc[::-1], lens)
+                    lib(B + ['to_parquet'], prior.to_parquet, path)
+                    r0 = lib(B + ['read_parquet_dask'], read_parquet_dask, path)
+                    lib(B + ['total_bounds'], lambda: (r0.geometry.total_bounds, r0.geometry.partition_bounds))
+                    shutil.rmtree(path)
+                if 'list' in step and 'pack' not in prov and ddf.npartitions >= 2:
+                    # two datasets read as a list whose order is not the sorted order of their paths
+                    h = ddf.npartitions // 2
+                    target = [os.path.join(tmp, f'z{len(os.listdir(tmp))}.parq'), os.path.join(tmp, f'a{len(os.listdir(tmp))}.parq')]
+                    lib(B + ['to_parquet'], ddf.partitions[:h].to_parquet, target[0])
+                    lib(B + ['to_parquet'], ddf.partitions[h:].to_parquet, target[1])
+                    labels.append('two-datasets-listed-out-of-path-order')
+                else:
+                    lib(B + ['to_parquet'], ddf.to_parquet, path)
                 kw = {}
                 if 'geom' in step:
                     kw['geometry'] = active
@@ -112,7 +130,7 @@ def evaluate(case):
                     kw['bounds'] = tuple(case['box'])
                     if 'geom' not in step:
                         kw['geometry'] = active
-                ddf = lib(B + ['read_parquet_dask'], read_parquet_dask, path, **kw)
+                ddf = lib(B + ['read_parquet_dask'], read_parquet_dask, target, **kw)
                 comp = lib(B + ['compute-after-read'], ddf.compute)
                 if 'geometry' not in kw:
                     # default = first geometry column of the file
@@ -272,7 +290,7 @@ def _case(draw):
     if draw(st.integers(0, 2)) == 0:
         box = [-1.0, -1.0, 40.0, 20.0]
     first = draw(st.sampled_from(['from_pandas', 'from_delayed', 'from_delayed']))
-    chain = [first] + draw(st.lists(st.sampled_from(['filter', 'set_geometry', 'pack', 'parquet', 'parquet-geom', 'parquet-bounds']), max_size=2, unique=True))
+    chain = [first] + draw(st.lists(st.sampled_from(['filter', 'set_geometry', 'pack', 'parquet', 'parquet-geom', 'parquet-bounds', 'parquet-rewrite', 'parquet-list', 'parquet-geom-list']), max_size=2, unique=True))
     return {'points': pts, 'shapes': shapes, 'kind2': kind2, 'subtype2': draw(st.sampled_from(['float64', 'float32', 'int32'])),
             'index': draw(st.sampled_from(['default', 'labels', 'nonunique'])),
             'col_order': draw(st.sampled_from([['pts', 'shp'], ['shp', 'pts']])), 'active': draw(st.sampled_from(['pts', 'pts', 'shp'])),
